@@ -625,7 +625,10 @@ func (p *partition) getStopOffset(req *client.SubscribeRequest) (int64, *status.
 	switch req.StopPosition {
 	case client.StopPosition_STOP_ON_CANCEL:
 		stopOffset = waitForNewMessages
-		if p.log.IsReadonly() {
+		// A forward subscription on a readonly partition ends at the end of
+		// the log. A reverse subscription starts there and always ends at the
+		// oldest message, so it needs no stop offset.
+		if p.log.IsReadonly() && !req.Reverse {
 			stopOffset = p.log.NewestOffset()
 		}
 	case client.StopPosition_STOP_OFFSET:
